@@ -76,7 +76,12 @@ def gen_design(r, cfg):
                 m["wires"].append({"name": ident(r, pn, 0.08), "msb": lsb + w - 1, "lsb": lsb,
                                    "ranged": w > 1 or lsb > 0 or r.random() < 0.2})
             if r.random() < 0.3:
-                m["params"][ident(r, set(), 0.0)] = r.choice(["8'h0F", "3", '"str"'])
+                # 1-3 header parameters, each with its own 'parameter' keyword; some carry a range or a type, which
+                # belongs to that one parameter only (the reader keeps it in the key:  "[3:0] RESET")
+                pnames = set()
+                for _ in range(r.choice([1, 1, 2, 3])):
+                    pre = r.choice(["", "", "", "[3:0] ", "[0:0] ", "integer "])
+                    m["params"][pre + ident(r, pnames, 0.0)] = r.choice(["8'h0F", "3", '"str"'])
             if r.random() < 0.3:
                 # one attribute list  (* k1 = v, k2, k3 = w *)  with 1-3 keys, valued and value-less in any order
                 for k_ in r.sample(["keep", "dont_touch", "mark", "src"], r.choice([1, 1, 2, 3])):
@@ -101,7 +106,7 @@ def gen_design(r, cfg):
                     # override a parameter the module declares in its header - with another value, or with the very
                     # value the header gives as default (redundant in Verilog, but it is what the source says)
                     for k_, v_ in t["params"].items():
-                        inst["params"][k_] = v_ if r.random() < 0.5 else r.choice(["8'h0F", "3", "5", '"str"', '"x"'])
+                        inst["params"][k_.split(" ")[-1]] = v_ if r.random() < 0.5 else r.choice(["8'h0F", "3", "5", '"str"', '"x"'])
                 if r.random() < 0.2:
                     for k_ in r.sample(["keep", "loc", "dont_touch"], r.choice([1, 1, 2, 3])):
                         inst["attrs"][k_] = r.choice([None, '"X1Y2"', "1"])
